@@ -312,6 +312,24 @@ def distinct_pruned(prql, sql):
     return False
 
 
+def distinct_widened(prql, sql):
+    """a `group {k1..kn} (take 1)` of the source appears as SELECT DISTINCT over its keys PLUS a column that is a key of a `sort`
+    of the source, or the `_expr_N` helper of one (the sort key a take carries has been put into the DISTINCT select list)"""
+    groups = [set(x.strip() for x in W.split_top(m.group(1))) for m in re.finditer(r"group \{([^{}]*)\} \(take 1\)", prql)]
+    keys = set()
+    for m in re.finditer(r"\bsort \{([^{}]*)\}", prql):
+        keys |= set(re.findall(r"[A-Za-z_][A-Za-z_0-9]*", m.group(1)))
+    if not groups or not keys:
+        return False
+    for m in re.finditer(r"SELECT DISTINCT (.*?) FROM", sql):
+        names = [re.split(r"\bAS\b", it)[-1].strip().split(".")[-1].strip('"`') for it in W.split_top(m.group(1))]
+        for g in groups:
+            surplus = [n for n in names if n not in g]
+            if g <= set(names) and surplus and all(n in keys or re.fullmatch(r"_expr_\d+", n) for n in surplus):
+                return True
+    return False
+
+
 def classify_c06(rec):
     """rewrite-specific known defects; predicates on the rewritten source, the emitted SQL and the failure"""
     lab = rec.get("label") or ""
@@ -374,6 +392,8 @@ def classify_c06(rec):
             return "F28-append-prune"
         if "UNION ALL" in sql and distinct_pruned(prql, sql):
             return "F66-distinct-pruned-under-append"
+        if re.search(r"\btake\b", prql) and re.search(r"\bsort\b", prql) and distinct_widened(prql, sql):
+            return "F72-distinct-includes-carried-sort-key"
     return None
 
 
@@ -650,6 +670,15 @@ def directed_known(rng, n):
         pg = g2.program(n_steps=rng.randint(1, 2), force=["distinct", "filter"])
         if any(s.kind == "distinct" for s in pg.steps):
             cases += two_ref_cases(pg, [P.gen_instance(rng, max_rows=6, min_rows=4), P.gen_instance(rng, max_rows=4, min_rows=2)], rng, force_rest=rng.choice([2, 3]))
+        # (2b) F72 (regression of 456bdcd): sort, then a distinct; the identity `take 1..` between them makes the take carry the sort key
+        #      into the DISTINCT select list
+        pg = g2.program(n_steps=2, force=["sort", "distinct"])
+        if [s.kind for s in pg.steps[:3]] == ["sort", "select", "distinct"]:
+            c = make_case(pg, [P.gen_instance(rng, max_rows=6, min_rows=5), P.gen_instance(rng, max_rows=6, min_rows=4)])
+            rp = W.from_program(pg)
+            for lab, q in W.sites_identity(rp, rng, kinds=("take-open", "filter-true")):
+                c.add("identity", lab, q.prql(), q.coq())
+            cases.append(c)
         # (3) F71: `P | append P` with P = sort by a computed key, then an aggregate
         pg = g2.program(n_steps=1, force=["aggregate"])
         if pg.steps and pg.steps[0].kind == "aggregate":
